@@ -182,6 +182,10 @@ def cols_of(layout, what):
         return slice(names[0], names[-1])
     if what == "nslice_open":
         return slice(names[min(1, len(names) - 1)], None)
+    if what == "nslice_rev":  # all variables, reversed, through a slice with a negative step and two open ends
+        return slice(None, None, -1)
+    if what == "nslice_rev_from":  # from the last variable downwards, open end
+        return slice(names[-1], None, -1)
     raise ValueError(what)
 
 
@@ -201,6 +205,8 @@ T_N = {
     "all,tnames": ([("all",)], "tnames"),
     "all,nslice": ([("all",)], "nslice"),
     "all,nslice_open": ([("all",)], "nslice_open"),
+    "all,nslice_rev": ([("all",)], "nslice_rev"),
+    "ell,nslice_rev_from": ([("ell",)], "nslice_rev_from"),
     "slice": ([("slice", (0, N), (0, N + 1), None)], None),
     "slice,name": ([("slice", (0, N), (0, N + 1), None)], "name"),
     "slice,names": ([("slice", (0, N), (0, N + 1), None)], "names"),
@@ -766,7 +772,7 @@ def space_contains_case(na, nb):
 def space_getitem_case(na, sel):
     def show(s):
         if isinstance(s, slice):
-            return "%s:%s" % (s.start or "", s.stop or "")
+            return "%s:%s%s" % (s.start or "", s.stop or "", ":%d" % s.step if s.step else "")
         return "".join(s) if not isinstance(s, str) else "'%s'" % s
 
     name = "space/getitem/%s[%s%s]" % ("".join(na), "t" if isinstance(sel, tuple) else "", show(sel))
@@ -1014,7 +1020,8 @@ def cases(tier):
         cont += [(["x"], ["x"]), (["x", "t", "u"], ["x", "t", "u"]), (["t"], ["x", "t"]), (["x", "t", "u"], ["t"])]
     for a, b_ in cont:
         cs.append(space_contains_case(a, b_))
-    sels = [["u", "x"], ("t", "u"), slice("x", "u"), slice("t", None), slice(None, "t"), "t"]
+    sels = [["u", "x"], ("t", "u"), slice("x", "u"), slice("t", None), slice(None, "t"), "t",
+            slice(None, None, -1), slice("u", None, -1), slice(None, "x", -1), slice(None, None, 2), slice("u", "x", -1)]
     if thorough:
         sels += [["x", "t", "u"], ["u"], slice("u", "x"), slice(None, None), ("u", "t", "x")]
     for sel in sels:
